@@ -372,9 +372,34 @@ def agreement(ctx, ih, model, klass):
         ok = False
         ctx.violation('agreement:' + what, detail=dict(d, model=cm[:16]), klass=dict(klass, view=what))
 
+    def iter_label_views(stage):
+        # iter_label reads the level tree while the arrays are not materialised, the arrays afterwards: both describe the model
+        for d in range(depth):
+            try:
+                got = [cs(x) for x in ih.iter_label(d)]
+            except Exception as e:
+                bad('iter_label_raises', depth=d, stage=stage, exception=type(e).__name__)
+                return
+            if not canon.seq_eq(got, [cs(t[d]) for t in model], canon.leq):
+                bad('iter_label', depth=d, stage=stage, got=got[:16])
+                return
+        if depth > 1:
+            ds = [0, depth - 1]
+            got = [cs(tuple(x)) for x in ih.iter_label(ds)]
+            if not canon.seq_eq(got, [cs(tuple(t[d] for d in ds)) for t in model], canon.leq):
+                bad('iter_label', depth=ds, stage=stage, got=got[:16])
+
+    if n and getattr(ih, '_recache', False):
+        ctx.tally('iter_label_stage', 'tree')
+        iter_label_views('tree')
+        if not ok:
+            return False
     if len(ih) != n:
         bad('len', got=len(ih))
         return False
+    if n:
+        ctx.tally('iter_label_stage', 'arrays')
+        iter_label_views('arrays')
     if ih.depth != depth:
         bad('depth', got=ih.depth)
         return False
@@ -493,6 +518,31 @@ def _check_date_leaf(case, ctx):
                 if got != exp or got_vals != exp:
                     ctx.violation('hloc_positions', detail={'key': repr((outer, sel)), 'expected': exp, 'got': got, 'series_values': got_vals, 'model': repr(model)[:500]}, klass=k2)
                     return
+        # coarser-unit slices at the date depth: from the first label of the start month to the last label of the stop month (inclusive),
+        # within the addressed outer group(s); both months hold labels in every addressed group
+        groups = outers if outer is None else [outer]
+        for a in months:
+            for b in months:
+                if a > b or not all(any(str(d).startswith(m) for d in days[o]) for o in groups for m in (a, b)):
+                    continue
+                for form in ('str', 'dt64'):
+                    lo, hi = (a, b) if form == 'str' else (np.datetime64(a, 'M'), np.datetime64(b, 'M'))
+                    exp = [i for i, (o, d) in enumerate(model) if o in groups and a <= str(d)[:7] <= b]
+                    key = sf.HLoc[(slice(None) if outer is None else outer), slice(lo, hi)]
+                    k2 = dict(klass, selectors=['all' if outer is None else 'label', 'partial_date_slice'], has_list=False, has_slice=True, bound_form=form)
+                    ctx.evaluation(('date_leaf_slice', repr(model), repr(outer), a, b, form), True)
+                    ctx.tally('date_leaf_slice', form)
+                    try:
+                        got, _ = _norm_positions(ih.loc_to_iloc(key), n)
+                        vals = s.loc[key]
+                        got_vals = [int(vals)] if isinstance(vals, (int, np.integer)) else [int(v) for v in vals.values]
+                    except Exception as e:
+                        ctx.violation('hloc_raised', detail={'key': repr((outer, a, b, form)), 'exception': type(e).__name__, 'message': str(e)[:200], 'expected': exp},
+                                      klass=dict(k2, exception=type(e).__name__))
+                        return
+                    if got != exp or got_vals != exp:
+                        ctx.violation('hloc_positions', detail={'key': repr((outer, a, b, form)), 'expected': exp, 'got': got, 'series_values': got_vals, 'model': repr(model)[:500]}, klass=k2)
+                        return
 
 
 def check(case, ctx):
